@@ -70,6 +70,18 @@ def r_xpath_spell(ck: Checker) -> None:
         desc = [(s.text if isinstance(s, Lit) else "{" + s.src + "}") for s in segs]
         ok = desc == ["{" + pxp + "}", "/@", "{" + nodep + ".parent_field.name}", "[", "{" + nodep + ".parent_index or '0'}", "]", "{" + nodep + ".__class__.__name__}"]
         xv = norm(xs[0].targets[0])
+        if not ok:
+            # a step spelled by a helper of later origin that could not be folded into the text: not read, hence not judged
+            helpers_ = {st.name for st in ck.repo.mod(LNODE).tree.body if isinstance(st, ast.FunctionDef)}
+            for s_ in segs:
+                if not isinstance(s_, Lit):
+                    try:
+                        e_ = ast.parse(s_.src, mode="eval").body
+                    except SyntaxError:
+                        continue
+                    called = [c for c in ast.walk(e_) if isinstance(c, ast.Call) and isinstance(c.func, ast.Name) and c.func.id in helpers_ and ck.repo.is_new_helper(ck.repo.mod(LNODE), c.func.id)]
+                    if called:
+                        raise Unsupported(f"_set_xpath: the step is spelled by the helper {called[0].func.id}(), which was not folded into the text", f.node)
     (ck.holds if ok else ck.violation)("R-LEG-XPATH-SPELL", f, f.node, what, **({} if ok else {"construct": f"_set_xpath builds {[norm(x.value)[:90] for x in xs]}"}))
     if ok:
         sets = [c for c in walk_body(f.node.body) if isinstance(c, ast.Call) and dotted(c.func) == "object.__setattr__" and [norm(a) for a in c.args] == [nodep, "'_xpath'", xv]]
